@@ -25,7 +25,7 @@ ASSUMPTIONS = [
 ]
 BUDGET = {"quick": 85, "thorough": 900}
 ROUNDS = {"thorough": 6}
-FLOORS = {"slices_compared": {"quick": 4000, "thorough": 40000}, "returned_numbers": {"quick": 600, "thorough": 6000}, "targets": 40, "must_return_checked": 10, "rescaled_batches": 4}
+FLOORS = {"slices_compared": {"quick": 4000, "thorough": 40000}, "returned_numbers": {"quick": 600, "thorough": 6000}, "targets": 40, "must_return_checked": 10, "rescaled_batches": 4, "height_transform_batches": 12, "rows_with_rho_zero": 4}
 
 # fully batched [S] evaluations that must return numbers (the library's own *_batch tests cover these classes)
 MUST_RETURN = {("time-plain", "like"), ("time-ratio", "like"), ("time-ratio", "coal"), ("time-shift", "skyride"), ("time-shift", "skygrid"), ("time-ratio", "bdsk"),
@@ -51,6 +51,9 @@ def cases(tier, seed):
     # parameter - and the parameters of the tree together - carrying the sample dimension on its own
     for i, (model, shape_, factors) in enumerate([("JC69", "caterpillar", [1.0, 1e-12]), ("HKY", "balanced", [1e-10, 2.0]), ("HKY+I", "caterpillar", [0.5, 1e-12]), ("GTR+W4", "random", [1.0, 1e-11])]):
         out.append({"rescaled_batch": True, "graph": "-", "target": "like", "mode": "given", "shape": [2], "model": model, "tree_shape": shape_, "factors": factors, "n": 60 + 20 * i, "seed": 99 + i})
+    # the node-height transforms on their own: forward and inverse of a batch of three very different samples (the same in every run)
+    for i in range(12):
+        out.append({"height_transform_batch": True, "graph": "-", "target": "transform", "mode": "given", "shape": [3], "n": 4 + i % 6, "param": ["ratio", "shift"][i % 2], "k": [None, None, 3.0][i % 3], "seed": 7000 + i})
     for name in zoo.DETERMINISTIC:
         g = zoo.build(name, 0)
         ids = [i for i in g["leaves"] if i != "mvn.tril.unres"]
@@ -165,9 +168,56 @@ def run_rescaled_batch(case):
     return {"violations": V, "counters": C, "fingerprint": "rescaled-batch|%s|%d" % (case["model"], case["seed"]), "sample": None}
 
 
+def run_height_transform_batch(case):
+    """forward and inverse of the node-height transforms on a batch [3, n-1]: row r equals the transform of row r alone"""
+    import torch
+
+    from ..gen import phylo
+    from ..ref import tree as rt
+    from ..gen import timetree as gt
+
+    V = []
+    C = {"slices_compared": 0, "returned_numbers": 0, "batched_raised": 0, "must_return_checked": 0, "targets": ["height-transform:%s:%s" % (case["param"], case["k"])], "raised_by": [], "height_transform_batches": 1}
+    rng = np.random.default_rng(case["seed"])
+    n = case["n"]
+    tc = gt.make_case(rng, rt.random_topology(n, rng, "random"), case["param"], "ages", 3)
+    objs, dic = tt.load([phylo.taxa_json(tc), gt.tree_json(tc)])
+    tree = dic["tree"]
+    tr = tree.transform
+    if case["k"] is not None and case["param"] == "shift":
+        from torchtree.evolution.tree_height_transform import DifferenceNodeHeightTransform
+
+        tr = DifferenceNodeHeightTransform(tree, case["k"])
+    if case["param"] == "ratio":
+        x = torch.cat([torch.tensor(tc["ratios"], dtype=torch.float64).reshape(3, -1), torch.tensor(tc["root_height"], dtype=torch.float64).reshape(3, 1)], -1)
+        x[1, -1] *= 7.0  # rows of very different size
+        x[2, -1] *= 0.2
+        x[2, -1] += float(max(phylo.tip_heights(tc)))
+    else:
+        x = torch.tensor(tc["shifts"], dtype=torch.float64).reshape(3, -1)
+        x[1] *= 30.0
+        x[2] *= 0.01
+    y = tr(x)
+    back = tr.inv(y)
+    C["returned_numbers"] += 1
+    for r in range(3):
+        yr = tr(x[r])
+        br = tr.inv(yr)
+        C["slices_compared"] += 2
+        for what, a, b in (("forward", y[r], yr), ("inverse", back[r], br)):
+            a, b = tt.as_np(a, "C10:not-a-tensor"), tt.as_np(b, "C10:not-a-tensor")
+            if a.shape != b.shape or not np.all(np.abs(a - b) <= 1e-10 * np.maximum(1.0, np.abs(b))):
+                V.append(tt.viol("C10:mixing:height-transform:%s:%s" % (type(tr).__name__, what), "%s (k=%s), %d taxa: row %d of the %s of a batch of three is %s, the same row alone gives %s" % (
+                    type(tr).__name__, case["k"], n, r, what, a[:4], b[:4]), case=case))
+                return {"violations": V, "counters": C, "fingerprint": "height-transform|%d" % case["seed"], "sample": None}
+    return {"violations": V, "counters": C, "fingerprint": "height-transform|%d" % case["seed"], "sample": None}
+
+
 def run_case(case):
     if case.get("rescaled_batch"):
         return run_rescaled_batch(case)
+    if case.get("height_transform_batch"):
+        return run_height_transform_batch(case)
     V = []
     g = zoo.build(case["graph"], case["seed"])
     t = case["target"]
@@ -201,6 +251,10 @@ def run_case(case):
             # one sample sits exactly on 0 (a special-cased value of several densities), the others do not
             rows[i].reshape((-1,) + d)[int(rng.integers(int(np.prod(sshape))))] = 0.0
             C["rows_with_exact_zero"] = 1
+        if str(i).endswith(".rho") and int(np.prod(sshape)) >= 2 and (case["mode"] == "given" or rng.random() < 0.3):
+            # one sample without sampling at the present (rho exactly 0, a legitimate value with its own code path), the others with
+            rows[i].reshape((-1,) + d)[0] = 0.0
+            C["rows_with_rho_zero"] = 1
     batched_spec = with_values(g["spec"], {i: rows[i].tolist() for i in chosen})
     detail = {"case": case, "batched": chosen}
     try:
